@@ -262,10 +262,24 @@ func (u *Unit) ghostAsserts(done ast.Stmt, st *State) {
 	if k < 0 {
 		return
 	}
+	// a statement can also be addressed by the variable it defines: @def:NAME (robust against
+	// statements being inserted before it)
+	defTag := ""
+	if as, ok := done.(*ast.AssignStmt); ok && as.Tok == token.DEFINE {
+		for _, l := range as.Lhs {
+			if id, ok := l.(*ast.Ident); ok && id.Name != "_" {
+				defTag = "@def:" + id.Name
+				break
+			}
+		}
+	}
+	hasTag := func(text, tag string) bool {
+		return strings.HasPrefix(text, tag+" ") || (defTag != "" && where == "" && strings.HasPrefix(text, defTag+" "))
+	}
 	for i, c := range b.clauses("assert") {
 		rest := c.Text
 		tag := fmt.Sprintf("@%s%d", where, k)
-		if !strings.HasPrefix(c.Text, tag+" ") {
+		if !hasTag(c.Text, tag) {
 			continue
 		}
 		at := k
@@ -285,7 +299,7 @@ func (u *Unit) ghostAsserts(done ast.Stmt, st *State) {
 	// `assume @K expr`: a fact taken for granted after statement K (reported as an assumption)
 	for _, c := range b.clauses("assume") {
 		tag := fmt.Sprintf("@%s%d", where, k)
-		if !strings.HasPrefix(c.Text, tag+" ") {
+		if !hasTag(c.Text, tag) {
 			continue
 		}
 		rest := strings.TrimSpace(c.Text[strings.Index(c.Text, " "):])
